@@ -7,6 +7,7 @@ use super::draw;
 use crate::config::Config;
 use crate::delta::{DiffType, Source, State, StateMachine};
 use crate::paint::Painter;
+use crate::style::DecorationStyle;
 use crate::{features, utils};
 
 // https://git-scm.com/docs/git-config#Documentation/git-config.txt-diffmnemonicPrefix
@@ -214,6 +215,13 @@ impl StateMachine<'_> {
         )
     }
 
+    /// As `should_handle`, for the file header. With `diff -u` input a header can be pending in
+    /// any state, including states which have no style of their own.
+    fn should_handle_diff_header(&self) -> bool {
+        let style = &self.config.file_style;
+        !(style.is_raw && style.decoration_style == DecorationStyle::NoDecoration)
+    }
+
     #[inline]
     fn test_pending_line_with_diff_name(&self) -> bool {
         matches!(self.state, State::DiffHeader(_)) || self.source == Source::DiffUnified
@@ -261,7 +269,7 @@ impl StateMachine<'_> {
                 self.config,
             )
         } else if !self.config.color_only
-            && self.should_handle()
+            && self.should_handle_diff_header()
             && self.handled_diff_header_header_line_file_pair != self.current_file_pair
         {
             self.painter.emit()?;
